@@ -158,6 +158,17 @@ def run_unit(unit, acc):
                     c["frame"] = unit["frame"]
                     c["ego"] = list(G.ego_menu(_SEED[0])[1])
                 check_case(c, acc)
+        if lay == "c" and k == 0:
+            # a matched pair that straddles the lateral limit of the critical region (estimate inside, ground truth outside, and the
+            # reverse), alone and next to every single other pair
+            eY, gY = dict(est[0], x=7.1, y=5.6, uuid="eY", score=0.37), dict(gt[0], x=7.0, y=6.4, uuid="gY")
+            eZ, gZ = dict(est[0], x=3.1, y=-6.3, uuid="eZ", score=0.36), dict(gt[0], x=3.0, y=-5.7, uuid="gZ")
+            for (ea, ga) in ((eY, gY), (eZ, gZ)):
+                for i in [None] + list(range(len(est))):
+                    for j in [None] + list(range(len(gt))):
+                        c = dict(layer=lay, ests=([est[i]] if i is not None else []) + [ea], gts=([gt[j]] if j is not None else []) + [ga], policy=unit["policy"],
+                                 frame=unit["frame"], ego=list(G.ego_menu(_SEED[0])[1]))
+                        check_case(c, acc)
 
 
 THR_LADDER = {"CENTERDISTANCE": [0.5, 1.0, 2.0], "PLANEDISTANCE": [0.5, 1.0, 2.0], "IOU2D": [0.6, 0.3, 0.05, 0.0], "IOU3D": [0.6, 0.3, 0.05, 0.0]}
@@ -221,6 +232,7 @@ def _check_maps(case, maps, frame_results, labels, policy, weight_fn, acc, bad, 
 
 def check_case(case, acc):
     acc.case()
+    AR.VALUE_HOOK[0] = None
     lay = case["layer"]
 
     def bad(sig, msg):
@@ -354,11 +366,26 @@ def check_case(case, acc):
                 cc = F.crit_config(m.evaluator_config, S.CRIT[crit])
             fr = m.add_frame_result(100 + rep, F.frame_gt(gts, ego, 100 + rep, str(rep)), ests, cc, F.pf_config(m.evaluator_config, S.THR["loose"]))
             frs.append((fr, wf))
+
+            # plane distances recomputed from the ego-relative construction poses (independent of the library's score)
+            def _plane(r, mode, ests=ests, gts=gts):
+                if mode != MatchingMode.PLANEDISTANCE or r.ground_truth_object is None:
+                    return None
+                i, j = G.index_of(r.estimated_object, ests), G.index_of(r.ground_truth_object, gts)
+                if i is None or j is None:
+                    return None
+                se, sg = case["ests"][i], case["gts"][j]
+                d = geom.plane_distance_ref((se["x"], se["y"], se["yaw"], se["size"][0], se["size"][1]), (sg["x"], sg["y"], sg["yaw"], sg["size"][0], sg["size"][1]))
+                if d is not None and abs(d - r.plane_distance.value) > 1e-6:
+                    bad("score:plane-distance", "result %s/%s carries plane distance %r, the construction poses give %r (frame %s)" % (se["uuid"], sg["uuid"], r.plane_distance.value, d, fr_id))
+                return d
+            AR.VALUE_HOOK[0] = _plane
             _check_maps(case, fr.metrics_score.maps, [fr.object_results], labels, case["policy"], wf, acc,
                         lambda s, mm: bad("frame:" + s, mm + " frame#%d crit=%s" % (rep, crit)),
                         lambda lab: sum(1 for g in fr.frame_ground_truth.objects if g.semantic_label.label == lab))
             acc.state(("c", fr_id, case["policy"], crit, tuple(tuple(round(a.ap, 6) for a in mp.aps) for mp in fr.metrics_score.maps)),
                       nontrivial=any(0 < a.ap < 1 for mp in fr.metrics_score.maps for a in mp.aps))
+        AR.VALUE_HOOK[0] = None
         acc.exec()
         sc = m.get_scene_result()
 
